@@ -15,7 +15,7 @@ class Umlal(Opcode):
     def execute(self, processor):
         if processor.condition_passed():
             a = set_substring(processor.registers.get(self.d_lo), 63, 32, processor.registers.get(self.d_hi))
-            result = processor.registers.get(self.n) * processor.registers.get(self.m) + a
+            result = substring(processor.registers.get(self.n) * processor.registers.get(self.m) + a, 63, 0)
             processor.registers.set(self.d_hi, substring(result, 63, 32))
             processor.registers.set(self.d_lo, substring(result, 31, 0))
             if self.setflags:
